@@ -12,7 +12,17 @@ for d in sorted(glob.glob(os.path.join(HERE, "seeded", "*-*"))):
         notes = " ".join(txt)[:230].replace("|", "/")
     if m.get("summary_text"):
         notes = m["summary_text"]
+    if os.path.basename(d).startswith("benign-"):
+        loud = [c["check"] for c in m["checks"] if c["violation_lines"]]
+        rows.append("| %s | %s | all of %s | %s |" % (
+            os.path.basename(d), notes, ", ".join(c["check"] for c in m["checks"]) if len(m["checks"]) < 20 else "C01–C20",
+            "silent (behaviour-preserving change: no check may alarm)" if not loud else "FALSE ALARM: " + ", ".join(loud)))
+        continue
     for c in m["checks"]:
+        if c["violation_lines"] == 0 and m.get("confirmed", {}).get("demo_exit_patched") == 0:
+            rows.append("| %s | %s | ./check %s | silent, rightly: %s |" % (
+                os.path.basename(d), notes, c["check"], m.get("history", "the change no longer breaks the property")))
+            continue
         how = "VIOLATION with a failing input" if c["violation_lines"] and "no-failing-input-found" not in c["first"] \
             else ("VIOLATION no-failing-input-found (obligation broken)" if c["violation_lines"] else "MISSED")
         if m.get("history"):
